@@ -320,9 +320,17 @@ class ParseAPI(object):
         data = data[len(self._wif_prefix) :]
         is_compressed = len(data) > 32
         if is_compressed:
+            if len(data) != 33 or data[-1:] != b"\01":
+                return None
             data = data[:-1]
+        elif len(data) != 32:
+            return None
         se = from_bytes_32(data)
-        return self._network.keys.private(se, is_compressed=is_compressed)
+        try:
+            return self._network.keys.private(se, is_compressed=is_compressed)
+        except ValueError:
+            # secret exponent out of range
+            return None
 
     def secret_exponent(self, s: str) -> Any:
         """
